@@ -348,7 +348,19 @@ void bufr_set_value_af( BufrValue *bv, const BufrDescriptor *bc )
       int  blens[256];
       int  i;
 
-      if (bv->af != NULL) return;
+      if (bv->af != NULL)
+         {
+/*
+ * keep an associated field that has the layout the descriptor asks for; a value copied
+ * from another occurrence of the descriptor (replication) may carry an older one
+ */
+         int same = (bv->af->count == bc->afd->count);
+         for (i = 0; same && (i < bc->afd->count) ; i++)
+            if (bv->af->fields[i].len != bc->afd->defs[i].nbits) same = 0;
+         if (same) return;
+         bufr_free_af( bv->af );
+         bv->af = NULL;
+         }
 
       for (i = 0; i < bc->afd->count ; i++)
          {
